@@ -557,3 +557,48 @@ pub fn read_all(path: &str) -> Vec<u8> {
     }
     v
 }
+
+/// run a scenario in a child process of this harness (`mdw-harness worker …`): for scenarios that change the process
+/// irreversibly (a seccomp filter) or may kill it (a fatal signal). Returns the lines it printed and whether it was
+/// killed by a signal.
+pub fn run_worker(args: &[String]) -> (Vec<String>, Option<i32>) {
+    use std::os::unix::process::ExitStatusExt;
+    let exe = match std::env::current_exe() {
+        Ok(e) => e,
+        Err(_) => return (vec![], None),
+    };
+    let outp = match Command::new(exe).args(args).stdin(Stdio::null()).stderr(Stdio::null()).output() {
+        Ok(o) => o,
+        Err(_) => return (vec![], None),
+    };
+    let lines = String::from_utf8_lossy(&outp.stdout).lines().filter(|l| !l.trim().is_empty()).map(|l| l.to_string()).collect();
+    (lines, outp.status.signal())
+}
+
+/// make `ptrace(PTRACE_GETREGSET, …)` fail with EIO for this process from now on (seccomp filter)
+pub fn forbid_getregset() -> bool {
+    #[repr(C)]
+    struct SockFilter { code: u16, jt: u8, jf: u8, k: u32 }
+    #[repr(C)]
+    struct SockFprog { len: u16, filter: *const SockFilter }
+    const LD_W_ABS: u16 = 0x20; // BPF_LD | BPF_W | BPF_ABS
+    const JEQ_K: u16 = 0x15;    // BPF_JMP | BPF_JEQ | BPF_K
+    const RET_K: u16 = 0x06;    // BPF_RET | BPF_K
+    const ALLOW: u32 = 0x7fff_0000;
+    const ERRNO_EIO: u32 = 0x0005_0000 | 5;
+    let prog = [
+        SockFilter { code: LD_W_ABS, jt: 0, jf: 0, k: 0 },                  // seccomp_data.nr
+        SockFilter { code: JEQ_K, jt: 0, jf: 3, k: libc::SYS_ptrace as u32 },
+        SockFilter { code: LD_W_ABS, jt: 0, jf: 0, k: 16 },                 // low half of args[0]
+        SockFilter { code: JEQ_K, jt: 0, jf: 1, k: 0x4204 },                // PTRACE_GETREGSET
+        SockFilter { code: RET_K, jt: 0, jf: 0, k: ERRNO_EIO },
+        SockFilter { code: RET_K, jt: 0, jf: 0, k: ALLOW },
+    ];
+    let fprog = SockFprog { len: prog.len() as u16, filter: prog.as_ptr() };
+    unsafe {
+        if libc::prctl(libc::PR_SET_NO_NEW_PRIVS, 1, 0, 0, 0) != 0 {
+            return false;
+        }
+        libc::prctl(libc::PR_SET_SECCOMP, 2 /* SECCOMP_MODE_FILTER */, &fprog as *const SockFprog) == 0
+    }
+}
